@@ -735,6 +735,32 @@ ERRORS += [
     ("duplicate-sub-arg-nonadjacent-slices", "def s7(qubit[2] a, qubit b2, qubit[2] c2) { h a; } s7(q[1:3], q[0], q[{2, 1}]);"),
     ("duplicate-sub-arg-two-registers", "def s8(qubit a, qubit b2, qubit c2, qubit d2) { h a; } s8(q[0], r[0], q[1], r[0]);"),
 ]
+# error sites of the implementation that no earlier class reached (found by line coverage of the quick corpus)
+ERRORS += [
+    ("constant-as-index", "h q[pi];"), ("sizeof-of-element", AR3 + "int[8] sz = sizeof(ar[0]);"),
+    ("unsupported-cast-expression", "rx(int[8](fv)) q[0];"), ("unsupported-duration-literal", "rx(10ns) q[0];"),
+    ("formal-qubit-size-zero", "def sz0(qubit[0] a) { } sz0(q[0]);"),
+    ("array-ref-literal-actual", "def ra1(readonly array[int[8], #dim=1] xa) { } ra1(5);"),
+    ("array-ref-qubit-actual", "def ra2(readonly array[int[8], #dim=1] xa) { } ra2(q);"),
+    ("array-ref-undeclared-actual", "def ra3(readonly array[int[8], #dim=1] xa) { } ra3(nope);"),
+    ("array-ref-zero-dims", "def ra4(readonly array[int[8], #dim=0] xa) { } " + AR3 + "ra4(ar);"),
+    ("array-ref-zero-size", "def ra5(readonly array[int[8], 0] xa) { } " + AR3 + "ra5(ar);"),
+    ("cond-unary-not-bang", "c[0] = measure q[0]; if (~c[0]) { x q[0]; }"),
+    ("cond-index-set", "c[0] = measure q[0]; if (c[{0, 1}] == 1) { x q[0]; }"),
+    ("cond-index-range", "c[0] = measure q[0]; if (c[0:1] == 1) { x q[0]; }"),
+    ("cond-index-set-bare", "c[0] = measure q[0]; if (c[{0, 1}]) { x q[0]; }"),
+    ("cond-index-range-bare", "c[0] = measure q[0]; if (c[0:1]) { x q[0]; }"),
+    ("cond-undeclared-register-indexed", "if (nope[0] == 1) { x q[0]; }"),
+    ("switch-case-declares-qubits", "switch (iv) { case 2 { qubit[2] zz; } default { x q[0]; } }"),
+    ("switch-case-defines-gate", "switch (iv) { case 2 { gate gsw x { h x; } } default { x q[0]; } }"),
+    ("switch-case-declares-array", "switch (iv) { case 2 { array[int[8], 2] asw; } default { x q[0]; } }"),
+    ("array-literal-too-shallow", "array[int[8], 2, 2] sh = {1, 2};"),
+    ("keyword-qubit-register", "qubit euler;"), ("keyword-const", "const int[8] tau = 3;"), ("keyword-subroutine", "def pi(qubit a) { h a; }"),
+    ("gate-body-barrier", "gate gbb x { barrier x; } gbb q[0];"),
+    ("const-base-size-zero", "const int[0] zc = 1;"),
+    ("loop-over-identifier", AR3 + "for int lo in ar { x q[0]; }"),
+    ("alias-redeclares-variable", "let iv = q[0:2];"), ("alias-of-concatenation", "let alc = q ++ r;"), ("alias-two-indices", "let al2 = q[0, 1];"),
+]
 TOP_ONLY = {"gphase-qubits-global", "redeclared-var"}
 
 CONTEXTS = [
